@@ -2617,6 +2617,18 @@ static void YM2612_save_state(YM2612 *F2612, running_device *device)
 }
 #endif /* _STATE_H */
 
+/* The lookup tables are shared by all chips: build them only once (the C++ wrapper
+   calls this at load time, so chips created on different threads never write them) */
+static int tables_ready = 0;
+void ym2612_init_tables(void)
+{
+	if (!tables_ready)
+	{
+		init_tables();
+		tables_ready = 1;
+	}
+}
+
 /* initialize YM2612 emulator(s) */
 /* void * ym2612_init(void *param, running_device *device, int clock, int rate,
 						FM_TIMERHANDLER timer_handler,FM_IRQHANDLER IRQHandler) */
@@ -2636,7 +2648,7 @@ void * ym2612_init(void *param, int clock, int rate,
 		return NULL;
 	memset(F2612, 0x00, sizeof(YM2612));
 	/* allocate total level table (128kb space) */
-	init_tables();
+	ym2612_init_tables();
 
 	F2612->OPN.ST.param = param;
 	F2612->OPN.type = TYPE_YM2612;
